@@ -144,7 +144,7 @@ func run(c *core.Ctx) {
 func runSig(c *core.Ctx) {
 	iters := 24
 	if c.Tier == "thorough" {
-		iters = 60
+		iters = 48
 	}
 	cnt := SigLane(c.Rng, iters, func(key, detail string, w interface{}) { viol(c, key, detail, w) })
 	for k, v := range cnt {
